@@ -64,8 +64,8 @@ func runC08(c *Ctx) {
 
 	R.Rule("R-close-paths", "E2", "QUIT replies 221 then closes; the recovered panic replies 421 then closes; a failed read replies (except on EOF/closed) and returns without dispatching", 5)
 	if f := c.A.Func("(*Conn).handle"); f != nil {
-		c.obMustUnder("QUIT closes", f, []string{lClose}, `strings.ToUpper(param1) == "QUIT"`, `param1 != ""`)
-		c.obMustUnder("QUIT replies 221", f, []string{"reply:221"}, `strings.ToUpper(param1) == "QUIT"`, `param1 != ""`)
+		c.obMustUnder("QUIT closes", f, []string{lClose}, verbTag(c)+` == "QUIT"`, `param1 != ""`)
+		c.obMustUnder("QUIT replies 221", f, []string{"reply:221"}, verbTag(c)+` == "QUIT"`, `param1 != ""`)
 		for _, cl := range s.Find(f, lClose) {
 			seen := s.SeenBefore(cl)
 			R.Ob(c.siteKey(cl, "reply before Close"), c.P.InstrPos(cl), seen["reply"], "connection closed without a reply")
